@@ -295,6 +295,10 @@ def execute(op: dict, ldr, T, seed: int = 0):
             while newid in ids_before:
                 newid += 1
             res = ldr.add_tomogram(tomo(newid), T)
+        elif name == "fork":
+            how = op["how"]
+            res = (ldr.copy() if how == "copy" else ldr.replace(order=ldr.order) if how == "replace_order"
+                   else ldr.binning(1) if how == "binning1" else ldr.reshape(shape=BOX))
         elif name == "derive":
             res = _how_call(ldr, op["how"], seed)
             res_bin = op["how"].get("b", 1) if op["how"]["name"] == "binning" else 1
